@@ -321,8 +321,11 @@ def _all_instances(self):
             if (aid, "sk") not in self.all_done:
                 self.all_done.add((aid, "sk"))
                 out.append(z3.Or(t, z3.And(0 <= k, k < L, z3.Not(ap.elem_fn(q[k])))))
-            # a constructed sequence in a hypothesis: elements at its ends
+            # a constructed sequence in a hypothesis: elements at its ends, or all of them when its length is concrete
             idxs = [z3.IntVal(0), L - 1]
+            ln = z3.simplify(L)
+            if z3.is_int_value(ln) and ln.as_long() <= 8:
+                idxs = [z3.IntVal(i) for i in range(ln.as_long())]
         else:
             idxs = [z3.IntVal(0), L - 1] + list(self.index_terms.get(z3.simplify(q).get_id(), []))
             for ap2, t2, k2, sub2 in cons:
